@@ -297,6 +297,8 @@ func (f fault) String() string {
 type harness struct {
 	out         *vh.Out
 	rng         *vh.Rng
+	crng        *vh.Rng // concurrent rounds: which rounds, schedule seeds
+	forceConc   bool    // every failure-free round of the scenario is concurrent
 	seed        uint64
 	tier        string
 	tmp         string
@@ -1083,6 +1085,153 @@ func childMain(root string, port int, servers string) {
 	}
 }
 
+// ------------------------------------------------------------------------------------ concurrent rounds
+
+// concMode decides how the next failure-free round runs: "" = the nodes one after the other (as
+// before), "go" = every node is started and all call Sync at the same moment (goroutines of this
+// process), "proc" = the same with one child process per node, as at a real start-up.  The choice has
+// a random stream of its own, so the scenarios themselves are what they were.
+func (h *harness) concMode() string {
+	if h.crng == nil {
+		h.crng = vh.NewRng(h.seed*2654435761 + 97)
+	}
+	r := h.crng.Intn(12)
+	if h.forceConc && r < 5 {
+		r += 5
+	}
+	switch {
+	case r < 5:
+		return ""
+	case r < 10:
+		return "go"
+	}
+	return "proc"
+}
+
+// runRoundConc: every participating node serves, then all of them run Sync concurrently (inside a
+// node, sync.go starts one goroutine per destination in each phase).  The op line `csync` is answered
+// by the model from the specification of C14_converges_concurrent, whatever the interleaving was.
+func (h *harness) runRoundConc(b *base, specs []nodeSpec, mode string) (allOK bool, err error) {
+	part := append([]int{}, b.part...)
+	var names []string
+	for _, i := range part {
+		names = append(names, specs[i].name)
+	}
+	schedSeed := h.crng.Intn(1 << 30)
+	failed := map[string]bool{}
+	h.msgMu.Lock()
+	h.msgs = map[string][][2]int{}
+	h.msgMu.Unlock()
+	if mode == "proc" {
+		kids := map[int]*child{}
+		defer func() {
+			for _, c := range kids {
+				fmt.Fprintln(c.in, "EXIT")
+				done := make(chan struct{})
+				go func(c *child) { c.cmd.Wait(); close(done) }(c)
+				select {
+				case <-done:
+				case <-time.After(10 * time.Second):
+					c.kill()
+				}
+			}
+		}()
+		for _, i := range part {
+			c, e := h.spawn(specs[i], b.newH, "")
+			if e != nil {
+				return false, e
+			}
+			kids[i] = c
+		}
+		for _, i := range part {
+			fmt.Fprintln(kids[i].in, "SYNC")
+		}
+		for _, i := range part {
+			line, e := kids[i].readLine(180 * time.Second)
+			if e != nil || strings.TrimSpace(line) != "SYNC ok" {
+				failed[specs[i].name] = true
+			}
+		}
+		h.out.Stats["conc-round:proc"]++
+	} else {
+		nodes := map[int]*cluster.ClusterNode{}
+		defer func() {
+			cluster.VerifSendShardFault = nil
+			for _, m := range nodes {
+				m.Close()
+			}
+		}()
+		for _, i := range part {
+			n, e := startNode(specs[i], b.newH)
+			if e != nil {
+				return false, e
+			}
+			nodes[i] = n
+		}
+		// the hook records the chunk sequences and shifts the goroutines against each other a little
+		jit := vh.NewRng(uint64(schedSeed)*7 + 3)
+		var jitMu sync.Mutex
+		cluster.VerifSendShardFault = func(host, role string, args *cluster.RPCSendShardRequest) error {
+			if role == "sender" {
+				h.msgMu.Lock()
+				h.msgs[args.ShardId] = append(h.msgs[args.ShardId], [2]int{args.ChunkIndex, len(args.ChunkData)})
+				h.msgMu.Unlock()
+			}
+			jitMu.Lock()
+			d := jit.Intn(600)
+			jitMu.Unlock()
+			if d < 300 {
+				time.Sleep(time.Duration(d) * time.Microsecond)
+			}
+			return nil
+		}
+		start := make(chan struct{})
+		var wg sync.WaitGroup
+		var mu sync.Mutex
+		for _, i := range part {
+			wg.Add(1)
+			go func(i int) {
+				defer wg.Done()
+				defer func() {
+					if r := recover(); r != nil {
+						mu.Lock()
+						failed[specs[i].name] = true
+						mu.Unlock()
+					}
+				}()
+				<-start
+				if e := nodes[i].Sync(); e != nil {
+					mu.Lock()
+					failed[specs[i].name] = true
+					mu.Unlock()
+				}
+			}(i)
+		}
+		close(start)
+		wg.Wait()
+		h.out.Stats["conc-round:go"]++
+	}
+	impl := "ok"
+	if len(failed) > 0 {
+		var fs []string
+		for n := range failed {
+			fs = append(fs, n)
+		}
+		sort.Strings(fs)
+		impl = "fail:" + strings.Join(fs, ",")
+	}
+	h.emit("csync", fmt.Sprintf("csync %d %s", schedSeed, strings.Join(names, ",")), impl, true)
+	return len(failed) == 0, nil
+}
+
+// cleanRound runs one failure-free round: sequentially in `order`, or concurrently.
+func (h *harness) cleanRound(b *base, specs []nodeSpec, order []int) (bool, error) {
+	if mode := h.concMode(); mode != "" {
+		return h.runRoundConc(b, specs, mode)
+	}
+	return h.runRound(b, specs, order, nil)
+}
+
 // ------------------------------------------------------------------------------------ one scenario = base × fault
 
 func (h *harness) orderFor(b *base, first int) []int {
@@ -1141,7 +1290,7 @@ func (h *harness) runScenario(b *base, sc int, flt fault, readback bool) {
 		j := h.rng.Intn(i + 1)
 		order[i], order[j] = order[j], order[i]
 	}
-	ok, err := h.runRound(b, specs, order, nil)
+	ok, err := h.cleanRound(b, specs, order)
 	if err != nil {
 		panic(err)
 	}
@@ -1175,7 +1324,7 @@ func (h *harness) runScenario(b *base, sc int, flt fault, readback bool) {
 		}
 		h.msgMu.Unlock()
 		// a second failure-free round must change nothing
-		ok2, err := h.runRound(b, specs, order, nil)
+		ok2, err := h.cleanRound(b, specs, order)
 		if err != nil {
 			panic(err)
 		}
@@ -1455,7 +1604,14 @@ func main() {
 	root := flag.String("root", "", "")
 	port := flag.Int("port", 0, "")
 	servers := flag.String("servers", "", "")
+	dupTrials := flag.Int("dupshard", 0, "experiment: two non-owners hold the same shard, all nodes synchronise at once (number of trials)")
+	dupSize := flag.Int("dupsize", 20<<20, "experiment: size of that shard file in bytes")
 	flag.Parse()
+	if *dupTrials > 0 {
+		zerolog.SetGlobalLevel(zerolog.Disabled)
+		dupShardExperiment(*dupTrials, *dupSize, *seed)
+		return
+	}
 	if *isChild {
 		childMain(*root, *port, *servers)
 		return
@@ -1546,6 +1702,7 @@ func (h *harness) runAll(extra map[string]any, only int) {
 		synth            []int
 		maxFaults, kills int
 		maxIdx           int
+		conc             bool
 	}
 	var plans []plan
 	if h.tier == "quick" {
@@ -1553,6 +1710,10 @@ func (h *harness) runAll(extra map[string]any, only int) {
 		for _, tr := range transitions {
 			plans = append(plans, plan{tr: tr, users: 3, cols: 2, pts: 9, maxFaults: 5, kills: 1, maxIdx: 2})
 		}
+		// several senders with shard files of more than one chunk: their chunks arrive interleaved at the
+		// common owner when all nodes synchronise at once
+		const MiB = 1 << 20
+		plans = append(plans, plan{tr: transitions[1], users: 1, cols: 1, pts: 3, synth: []int{8*MiB + pageSize, 8*MiB + 1, 8*MiB + pageSize, 16*MiB + pageSize, 8*MiB + 2*pageSize}, maxFaults: 1, kills: 0, maxIdx: 2, conc: true})
 	} else {
 		for _, tr := range transitions {
 			plans = append(plans, plan{tr: tr, users: 4, cols: 2, pts: 14, maxFaults: 14, kills: 3, maxIdx: 2})
@@ -1563,6 +1724,9 @@ func (h *harness) runAll(extra map[string]any, only int) {
 		plans = append(plans, plan{tr: transitions[5], users: 1, cols: 1, pts: 3, synth: []int{16 * MiB, 16*MiB + pageSize, 8*MiB + 1}, maxFaults: 1000, kills: 2, maxIdx: 3})
 		// a real bbolt shard larger than one chunk
 		plans = append(plans, plan{tr: transitions[2], users: 1, cols: 1, pts: 4, bigPad: 3 * MiB, maxFaults: 1000, kills: 1, maxIdx: 3})
+		// several senders with multi-chunk shard files, all nodes synchronising at once
+		plans = append(plans, plan{tr: transitions[1], users: 2, cols: 1, pts: 3, synth: []int{8*MiB + pageSize, 8*MiB + 1, 16 * MiB, 16*MiB + pageSize, 8*MiB + 2*pageSize, 24*MiB + 1, 8 * MiB, 9 * MiB}, maxFaults: 6, kills: 1, maxIdx: 3, conc: true})
+		plans = append(plans, plan{tr: transitions[6], users: 2, cols: 1, pts: 3, synth: []int{8*MiB + pageSize, 16*MiB + 1, 16 * MiB, 9 * MiB, 8*MiB + 1, 10 * MiB}, maxFaults: 4, kills: 1, maxIdx: 3, conc: true})
 	}
 	for sc, p := range plans {
 		if only >= 0 && sc != only {
@@ -1570,6 +1734,8 @@ func (h *harness) runAll(extra map[string]any, only int) {
 			continue
 		}
 		h.rng = vh.NewRng(h.seed*7919 + uint64(sc)*104729 + 1)
+		h.crng = vh.NewRng(h.seed*2654435761 + uint64(sc)*40503 + 97)
+		h.forceConc = p.conc
 		uuid.SetRand(&seededReader{r: vh.NewRng(h.seed*15485863 + uint64(sc)*32452843 + 5)})
 		b, err := h.buildBase(sc, p.tr, p.users, p.cols, p.pts, p.bigPad, p.synth)
 		if err != nil {
@@ -1666,6 +1832,8 @@ func (h *harness) runAll(extra map[string]any, only int) {
 	for i, p := range hplans {
 		sc := 100 + i
 		h.rng = vh.NewRng(h.seed*7919 + uint64(sc)*104729 + 1)
+		h.crng = vh.NewRng(h.seed*2654435761 + uint64(sc)*40503 + 97)
+		h.forceConc = false
 		uuid.SetRand(&seededReader{r: vh.NewRng(h.seed*15485863 + uint64(sc)*32452843 + 5)})
 		h.runHistory(sc, p.kind, p.first, p.users, p.cols, p.pts, p.steps)
 	}
